@@ -21,10 +21,25 @@ def fields_last_is_state(loc):
     return f[-1] == 'permits' and (len(f) == 1 or f[-2] in ('state',))
 
 
-def guarded(E, facts, cur, x):
-    """is `cur >= x` among the path facts?"""
+def guarded(E, facts, cur, x, path=None):
+    """is `cur >= x` among the path facts - directly, or through `lb >= x` for an lb that cannot exceed cur
+    (cur.saturating_sub(_), min(cur, _), the non-overflowing cur - _)?"""
     from common import cmp_fact
-    return cmp_fact(E, facts, 'Ge', cur, x) == 1
+    if cmp_fact(E, facts, 'Ge', cur, x) == 1:
+        return True
+    lbs = []
+    for e in (path.events if path is not None else ()):
+        if e['k'] == 'call' and e.get('ret') is not None and e.get('args'):
+            if e.get('name') == 'saturating_sub' and e['args'][0] == cur:
+                lbs.append(e['ret'])
+            elif e.get('name') == 'min' and cur in e['args'][:2]:
+                lbs.append(e['ret'])
+    for k in facts:
+        if isinstance(k, tuple) and k and k[0] == 'bin':
+            for y in k[2:4]:
+                if isinstance(y, tuple) and y[:2] == ('bin', 'Sub') and y[2] == cur:
+                    lbs.append(y)
+    return any(cmp_fact(E, facts, 'Ge', lb, x) == 1 for lb in lbs)
 
 
 def find_aggs(v, adts, out, depth=0):
@@ -91,7 +106,7 @@ def run(C, R):
                     if cur != w['old']:
                         R.fail('C05.R1', [m['path'], 'sub-not-decremental'], 'permits = %s' % fmt_val(w['val']),
                                where(F, w))
-                    elif guarded(E, path.facts, cur, x):
+                    elif guarded(E, path.facts, cur, x, path):
                         R.ok('C05.R1', '%s|%s' % (m['path'], path_cond(E, path)),
                              {'function': m['path'], 'write': 'permits -= %s' % fmt_val(x),
                               'guard': 'permits >= %s on this path' % fmt_val(x)})
